@@ -27,6 +27,14 @@ V08r(w) == { C("get", "", "0", "1"), C("set", IF w = 1 THEN "37" ELSE "38", "0",
              C("append", IF w = 1 THEN "3c313e" ELSE "3c323e", "0", "9"), C("prepend", IF w = 1 THEN "3c313e" ELSE "3c323e", "0", "10"),
              C("incr", "", "0", "11"), C("set", IF w = 1 THEN "37" ELSE "38", "1", "3") }
 Progs08_2 == {[w \in {1, 2} |-> IF w = 1 THEN a ELSE b] : a \in V08d(1), b \in V08d(2) \cup V08r(2)}
+(* C19: quiet commands against each other and against loud ones *)
+Q(cmd, opc) == [cmd EXCEPT !.q = TRUE, !.opc = opc]
+V19q(w) == { Q(C("get", "", "0", "21"), 9), [Q(C("get", "", "0", "22"), 13) EXCEPT !.gk = TRUE],
+             Q(C("set", IF w = 1 THEN "37" ELSE "38", "0", "23"), 17), Q(C("add", IF w = 1 THEN "37" ELSE "38", "0", "24"), 18),
+             Q(C("replace", IF w = 1 THEN "37" ELSE "38", "0", "25"), 19), Q(C("append", IF w = 1 THEN "3c313e" ELSE "3c323e", "0", "26"), 25),
+             Q(C("incr", "", "0", "27"), 21), Q(C("delete", "", "0", "28"), 20), Q(Fl(0, "29"), 24) }
+V19l(w) == { C("get", "", "0", "1"), Cttl("set", IF w = 1 THEN "37" ELSE "38", "0", "15", 3), C("delete", "", "0", "5"), Fl(0, "17") }
+Progs19_2 == {[w \in {1, 2} |-> IF w = 1 THEN a ELSE b] : a \in V19q(1), b \in V19q(2) \cup V19l(2)}
 Progs03_2 == {[w \in {1, 2} |-> IF w = 1 THEN a ELSE b] : a \in V03(1), b \in V03(2)}
 Progs04_2 == {[w \in {1, 2} |-> IF w = 1 THEN a ELSE b] : a \in V03(1) \cup V04(1), b \in V04(2)}
 Progs03_3 == {[w \in {1, 2, 3} |-> IF w = 1 THEN a ELSE IF w = 2 THEN b ELSE c] : a \in V03(1), b \in V03(2), c \in V03(3)}
